@@ -253,6 +253,7 @@ type runMeta struct {
 func (h *Harness) runOne(t *testing.T, seed uint64, sc *Script, yl []YieldDecision, trace bool) *runX {
 	x := newRun(seed, sc, h.tier)
 	x.Trace = trace
+	x.noBubble = h.NoBubble
 	if yl != nil {
 		x.yieldList = map[uint64]YieldDecision{}
 		for _, d := range yl {
@@ -270,7 +271,7 @@ func (h *Harness) runOne(t *testing.T, seed uint64, sc *Script, yl []YieldDecisi
 		x.start = time.Now()
 		cur = x
 		x.Recover("harness Exec (code under test)", func() { h.Exec(x) })
-		rx.simNs = time.Since(x.start)
+		rx.simNs = x.Now()
 	}
 	if h.NoBubble {
 		body()
